@@ -6,6 +6,9 @@ src=json.load(open('/verif/manifest_src.json'))
 import subprocess
 desc=json.loads(subprocess.run(['/verif/bin/charonlint','-describe'],capture_output=True,text=True).stdout or '{}')
 for pid,d in desc.items():
+    if pid in src['checks']:
+        # hand-written note/technique are kept; the claim text always follows the checker's own rule descriptions
+        src['checks'][pid]['text']="Structural necessary conditions decided exactly from the source on every path / call site (level other, not a proof of the behaviour). Decides: "+d['decides']+" Not decided: "+d['not_decided']
     if pid not in src['checks']:
         src['checks'][pid]={
           "text":"Structural necessary conditions decided exactly from the source on every path / call site (level other, not a proof of the behaviour). Decides: "+d['decides']+" Not decided: "+d['not_decided'],
